@@ -32,6 +32,9 @@ ASSUMPTIONS = [
     "snapshot completeness: every entry of vars(obj) is snapshotted (arrays bit-exact, deques with maxlen, nested budget managers, generators by get_state)",
 ]
 TRUSTED = [
+    "translator harness/translate/pystream.py (Python subset -> Lean, typing table of the attributes, generator = cursor into the captured "
+    "draw streams, lazily initialised attributes = initial object): validated on every run by executing the translated model bit-exactly "
+    "against the real classes; the equality translated model = hand-written model is proved in Lean for all inputs (Lemmas/StreamGen.lean)",
     "the window logic (_calculate_ldf) of StreamDensityBasedAL / CognitiveDualQueryStrategy is not modelled in Lean; its purity is covered by the snapshot oracles on the implementation only",
     "classifier (ParzenWindowClassifier), distance function (integer Manhattan) and np.quantile are oracles",
 ]
